@@ -441,6 +441,7 @@ class Interp:
         self.cls_name = cls_name
         self.thresholds_seen = []  # (lhs poly, op, rhs poly) for every decided comparison
         self.attr_sets = []  # attribute stores on non-self objects, in order (shared with sub-interpreters)
+        self.assign_trace = {}  # id(assignment statement) -> value assigned (shared with sub-interpreters)
         self.steps = 0
         self.max_steps = max_steps
 
@@ -456,6 +457,7 @@ class Interp:
         sub = Interp(self.env, self.selfattrs, self.region, self.methods, self.cls_name, externals=self.externals)
         sub.thresholds_seen = self.thresholds_seen
         sub.attr_sets = self.attr_sets
+        sub.assign_trace = self.assign_trace
         params = [a.arg for a in fnode.args.posonlyargs + fnode.args.args]
         if bind_self and params and params[0] == "self":
             params = params[1:]
@@ -482,6 +484,7 @@ class Interp:
             raise Undecided("step limit")
         if isinstance(st, ast.Assign):
             v = self.eval(st.value)
+            self.assign_trace[id(st)] = v
             for t in st.targets:
                 self.assign(t, v)
         elif isinstance(st, ast.AnnAssign):
@@ -767,7 +770,22 @@ class Interp:
         if isinstance(e, ast.Call):
             return self.call(e)
         if isinstance(e, ast.JoinedStr):
-            return "<fstring>"
+            parts = []
+            for v in e.values:
+                if isinstance(v, ast.Constant):
+                    parts.append(str(v.value))
+                    continue
+                try:
+                    x = self.eval(v.value)
+                except Undecided:
+                    return "<fstring>"
+                if isinstance(x, str):
+                    parts.append(x)
+                elif isinstance(x, Poly) and x.is_const() and x.const_value().denominator == 1:
+                    parts.append(str(int(x.const_value())))
+                else:
+                    return "<fstring>"
+            return "".join(parts)
         if isinstance(e, ast.Lambda):
             return Closure(e, self)
         if isinstance(e, ast.Dict):
@@ -1016,6 +1034,30 @@ class Interp:
             if all(n in pyt for n in names) and isinstance(v, (tuple, list, dict, str, bool, set, Poly)):
                 return any(isinstance(v, pyt[n]) for n in names)
             raise Undecided("isinstance")
+        if name == "filter" and isinstance(f, ast.Name) and len(args) == 2:
+            pred, seq = ev(args[0]), ev(args[1])
+            if isinstance(seq, (list, tuple)):
+                out = []
+                for x in seq:
+                    if pred is None:
+                        keep = self.truth(x)
+                    elif isinstance(pred, Closure) and isinstance(pred.node, ast.Lambda):
+                        sub = Interp(self.env, self.selfattrs, self.region, self.methods, self.cls_name, externals=self.externals)
+                        sub.env[pred.node.args.args[0].arg] = x
+                        keep = self.truth(sub.eval(pred.node.body))
+                    elif isinstance(pred, PyFunc):
+                        keep = self.truth(pred.f([x], {}))
+                    else:
+                        raise Undecided("filter predicate")
+                    if keep:
+                        out.append(x)
+                return out
+            raise Undecided("filter over a non-list")
+        if name == "reversed" and isinstance(f, ast.Name) and args:
+            seq = ev(args[0])
+            if isinstance(seq, (list, tuple)):
+                return list(reversed(seq))
+            raise Undecided("reversed of a non-list")
         if name == "sorted" and isinstance(f, ast.Name) and args:
             seq = ev(args[0])
             if isinstance(seq, (dict, set)):
